@@ -155,7 +155,7 @@ fn encode(stim: &Value, ev: &mut Vec<Value>) -> (Vec<u8>, Option<http::HeaderMap
         if server { (drain_encoder(Box::pin(EncodeBody::new_server(e, src, enc, ovr, limit)), max_polls, ev), c) }
         else { (drain_encoder(Box::pin(EncodeBody::new_client(e, src, enc, limit)), max_polls, ev), c) }
     } else {
-        let (src, c) = build_source(&stim["items"], |it| Some(json_bytes(&it["b"])));
+        let (src, c) = build_source(&stim["items"], |it| Some(if it["k"] == "huge" { vec![250, 18, it["extra"].as_u64().unwrap_or(1) as u8] } else { json_bytes(&it["b"]) }));
         let e = RawCodec::with(stim["bufsz"].as_u64().unwrap_or(8192) as usize, stim["yield"].as_u64().unwrap_or(32768) as usize);
         if server { (drain_encoder(Box::pin(EncodeBody::new_server(e, src, enc, ovr, limit)), max_polls, ev), c) }
         else { (drain_encoder(Box::pin(EncodeBody::new_client(e, src, enc, limit)), max_polls, ev), c) }
@@ -473,6 +473,20 @@ pub fn gen_hostile(seed: u64, tier: &str) -> Vec<Value> {
     }
     // a compressed message whose wire form is within the limit but which inflates far past it: it is accepted (the limit is
     // about the wire) and must be delivered whole, not cut to the limit
+    // a flagged frame whose payload is a complete compressed stream followed by more bytes - 40 kB of them, shaped like small
+    // frames and reaching past the decompressor's 32 KiB read-ahead: whatever is made of the payload, its bytes belong to that one
+    // frame and the next message is the one behind it
+    for (j, enc) in ["gzip", "deflate"].iter().enumerate() {
+        let mut payload = compress_with(enc, b"the real message");
+        payload.resize(64, 0);
+        for i in 0..5000u32 { payload.extend(frame(0, &[(i % 250) as u8, 1, 2])); }
+        let mut wire = frame(1, &payload);
+        wire.extend(frame(0, &[9, 9]));
+        let role = if j % 2 == 0 { "server" } else { "client" };
+        out.push(json!({"kind":"dec","class":"compressed_stream_with_tail","role":role,"dec_enc":enc,"enc":"identity","override":false,"codec":"raw","bufsz":8192,"yield":32768,
+            "limit_enc": -1, "limit_dec": -1, "items": [], "wire": bytes_json(&wire), "cuts": if j == 0 { vec![] } else { vec![16384usize, 32768, 40000] }, "body_pend": Vec::<usize>::new(),
+            "tail": if role == "server" { "trailers_ok" } else { "none" }, "tail_at": 0, "extra_polls": 4}));
+    }
     for (j, enc) in ["gzip", "deflate", "zstd", "gzip"].iter().enumerate() {
         for lim in [64i64, 100] {
             let plain: Vec<u8> = (0..(200 + 50 * j)).map(|x| [b'q', b'r'][(x / 40) % 2]).collect();
@@ -585,6 +599,12 @@ pub fn gen_limits(seed: u64, tier: &str) -> Vec<Value> {
             for role in ["server", "client"] {
                 for enc in ["identity", "gzip"] {
                     let items: Vec<Value> = (0..3).map(|_| { let n = [0usize, 5, 17, 40][rng.gen_range(0..4)]; json!({"k":"msg","b":bytes_json(&rand_bytes(&mut rng, n, false))}) }).collect();
+                    // a message of more than 4 GiB after a small one, under every kind of limit (identity only: nothing is compressed)
+                    if enc == "identity" && l == -2 { for (lim_enc, extra) in [(-1i64, 1u64), (-4, 1), (-3, 5), (-3, 200), (-2, 1), (100, 1), (4194304, 7)] {
+                        let items = vec![json!({"k":"msg","b":[1, 2, 3]}), json!({"k":"huge","extra":extra}), json!({"k":"msg","b":[4]})];
+                        out.push(json!({"kind":"enc","class":"huge_message","role":role,"enc":"identity","override":false,"codec":"raw","bufsz":8192,"yield":32768,
+                            "limit_enc":lim_enc,"limit_dec":-1,"items":items,"cuts":[],"body_pend":[],"tail":"none","tail_at":0,"extra_polls":1}));
+                    } }
                     out.push(json!({"kind":"rt","class":"huge_limits","role":role,"enc":enc,"override":false,"codec":"raw",
                         "bufsz":64,"yield":32768,"limit_enc":l,"limit_dec":l,"items":items,"cuts":rand_cuts(&mut rng),
                         "body_pend":[],"tail": if role=="server" {"enc"} else {"none"},"tail_at":0,"extra_polls":3}));
